@@ -71,7 +71,8 @@ func genC14(t *rapid.T) any {
 			}
 			onceUsed[fn] = true
 			it.Tag = fmt.Sprintf("n%d", i)
-			it.Arg = rapid.SampledFrom([]string{"5", "'k'", "2.5"}).Draw(t, l+".const")
+			// a constant, or a column: the single invocation then receives the value of one of the selected rows
+			it.Arg = rapid.SampledFrom([]string{"5", "'k'", "2.5", "a", "s"}).Draw(t, l+".const")
 		case "":
 			it.Tag = fmt.Sprintf("p%d", i)
 		case "spin", "spinasync":
@@ -289,6 +290,31 @@ func checkC14(c *C14Case) Result {
 		res.Violation = fmt.Sprintf("%s\n  %s", ctx, out.Describe())
 		return res
 	}
+	// a ONCE call over a column: whichever row's value the single invocation received, it must be the value of
+	// a selected row, and every row shows the function's value for that one argument
+	onceArg := map[string]any{}
+	for _, it := range c.Items {
+		if it.Q != "once" || (it.Arg != "a" && it.Arg != "s") || len(selected) == 0 {
+			continue
+		}
+		res.Labels = append(res.Labels, "once-over-column")
+		if len(argsSeen[it.Tag]) != 1 {
+			res.Violation = fmt.Sprintf("%s\n  the ONCE call tagged %s was invoked %d times; expected 1; arguments seen: %s", ctx, it.Tag, len(argsSeen[it.Tag]), val.JSON(argsSeen[it.Tag]))
+			return res
+		}
+		got := val.Norm(argsSeen[it.Tag][0])
+		held := false
+		for _, row := range selected {
+			if val.Equal(got, row[it.Arg]) {
+				held = true
+			}
+		}
+		if !held {
+			res.Violation = fmt.Sprintf("%s\n  the ONCE call tagged %s received %s, which no selected row holds in column %s", ctx, it.Tag, val.JSON(got), it.Arg)
+			return res
+		}
+		onceArg[it.Tag] = got
+	}
 	// expected rows
 	var want []any
 	for _, row := range selected {
@@ -301,6 +327,9 @@ func checkC14(c *C14Case) Result {
 			switch it.Arg {
 			case "a", "s":
 				arg = row[it.Arg]
+				if it.Q == "once" {
+					arg = onceArg[it.Tag]
+				}
 			case "5":
 				arg = 5.0
 			case "2.5":
@@ -370,7 +399,26 @@ func checkC14(c *C14Case) Result {
 		res.Discard = "unqualified comparison query fails: " + plain.Describe()
 		return res
 	}
-	if !seqEqual(out.Rows, plain.Rows) {
+	// a ONCE call over a column shows one row's value everywhere, the unqualified call each row's own:
+	// those columns (checked above against the invocation's argument) are left out of this comparison
+	qRows, pRows := out.Rows, plain.Rows
+	if len(onceArg) > 0 {
+		strip := func(rows []any) []any {
+			cp := val.Copy(rows).([]any)
+			for _, r := range flattenOne(cp) {
+				if m, ok := r.(map[string]any); ok {
+					for _, it := range c.Items {
+						if _, over := onceArg[it.Tag]; over && it.Q == "once" {
+							delete(m, it.Alias)
+						}
+					}
+				}
+			}
+			return cp
+		}
+		qRows, pRows = strip(qRows), strip(pRows)
+	}
+	if !seqEqual(qRows, pRows) {
 		key := ""
 		if c.Tail != "" {
 			key = "async-under-distinct-orderby"
@@ -441,7 +489,7 @@ func init() {
 			"gated call and a completion order different from arrival order, or an immediate-function case.",
 		Assumptions: []string{
 			"no LIMIT/OFFSET (whether skipped rows are evaluated is unspecified); failing ASYNC functions belong to C10",
-			"ONCE calls take constant arguments (which row's argument is used is unspecified)",
+			"a ONCE call over a column may receive the value of any selected row (which one is unspecified); it must be invoked once and every row must show the function's value for that one argument",
 			"goroutine schedules beyond the harness-owned completion order are whatever the Go scheduler yields",
 		},
 		Gen:          genC14,
